@@ -145,12 +145,18 @@ pub fn normalise_msg(m: &str) -> String {
 }
 
 pub fn in_repo_file(file: &str) -> bool {
-    file.starts_with("/repo/") || (file.starts_with("src/") && !file.contains("flmon"))
+    // (also a scratch copy of the repository, e.g. /tmp/<x>/repo/src/..)
+    file.starts_with("/repo/")
+        || file.contains("/repo/src/")
+        || (file.starts_with("src/") && !file.contains("flmon"))
 }
 
 /// short form of a source path inside the repository (`src/...`)
 pub fn repo_rel(file: &str) -> String {
-    file.strip_prefix("/repo/").unwrap_or(file).to_string()
+    match file.find("/repo/") {
+        Some(i) => file[i + 6..].to_string(),
+        None => file.to_string(),
+    }
 }
 
 // ------------------------------------------------------------------------------------------
